@@ -54,14 +54,33 @@ def corpus():
     ]
 
 
-def run_many(ctx, gen, nrandom, tag):
+def gen_size_programs(rng):
+    """readers of the four size queries running against producers/consumers"""
+    progs, keys = gen_programs(rng, maxops=4)
+    kinds = ["qsize", "inprogress", "deferred", "fifo", "fifo", "fifo"]
+    for _ in range(rng.randint(1, 2)):
+        progs.append([("size", rng.choice(kinds), rng.choice(keys)) for _ in range(rng.randint(2, 5))])
+    return progs, keys
+
+
+def run_many(ctx, gen, nrandom, tag, mid_cs=False):
     runs = []
     for progs, keys in corpus():
         for seed in range(40 if ctx.quick() else 400):
-            runs.append(qharness.execute(progs, keys, rng=random.Random(seed)))
+            runs.append(qharness.execute(progs, keys, rng=random.Random(seed), mid_cs=mid_cs))
     for i in range(nrandom):
         progs, keys = gen(ctx.rng)
-        runs.append(qharness.execute(progs, keys, rng=random.Random(ctx.rng.getrandbits(32))))
+        runs.append(qharness.execute(progs, keys, rng=random.Random(ctx.rng.getrandbits(32)), mid_cs=mid_cs))
+    if mid_cs:
+        # dumps taken by threads outside the lock can see another thread's half-finished critical section in this mode, so
+        # the field-by-field comparison with the model is left to the lock-granular stage; only the oracles judge these runs
+        for r in runs:
+            nget = sum(1 for e in r["log"] if e[0] == "getend" and e[2] is not None)
+            nsz = sum(1 for e in r["log"] if e[0] == "size")
+            ctx.count(f"midcs:{r['result']}:sizes={min(nsz, 4)}")
+            ctx.case((json.dumps(r["progs"]), tuple(r["taken"]), "midcs"), nontrivial=nget > 0 and nsz > 0)
+            yield r
+        return
     drv = common.Driver()
     all_lines, spans, exps = [], [], []
     for r in runs:
@@ -98,8 +117,12 @@ def run(ctx):
         for p in probs:
             ctx.violation("queue:" + p.split(":")[0][:40].replace(" ", "_"), p,
                           {"kind": "qschedule", "programs": r["progs"], "keys": r["keys"], "schedule": r["taken"], "problem": p})
-        # truthful sizes: every size query answered under the lock equals the truth at that moment (checked against
-        # the private fields in the dump taken at the same scheduling point by the correspondence above)
+    # truthful sizes under finer interleavings: scheduling points inside the critical sections (at the metric updates)
+    for r in run_many(ctx, gen_size_programs, 400 if ctx.quick() else 10000, "C11-midcs", mid_cs=True):
+        probs = [p for p in qharness.oracle(r) if p.startswith("size query") or "delivered twice" in p]
+        for p in probs:
+            ctx.violation("queue:" + p.split("(")[0][:40].replace(" ", "_"), p,
+                          {"kind": "qschedule", "mid_cs": True, "programs": r["progs"], "keys": r["keys"], "schedule": r["taken"], "problem": p})
     ctx.coverage["rule"] = ("2-4 threads (producers with immediate/deferred puts, consumers with timed gets and task_done, joiners, size "
                             "queries, task_done on foreign keys) over 1-3 FIFO keys on the real queue with threading/monotonic/sleep "
                             "replaced by the cooperative shim; corpus under 40 seeded schedules each, then random programs and schedules; "
@@ -125,7 +148,7 @@ def refine_deadlock(r, probs):
 def replay(ctx, path):
     r = json.load(open(path))
     progs = [[tuple(op) for op in p] for p in r["programs"]]
-    run = qharness.execute(progs, r["keys"], choices=list(r["schedule"]))
+    run = qharness.execute(progs, r["keys"], choices=list(r["schedule"]), mid_cs=bool(r.get("mid_cs")))
     probs = refine_deadlock(run, qharness.oracle(run))
     print("result:", run["result"], "final:", run["final"], "problems:", probs)
     return 1 if probs else 0
